@@ -698,6 +698,24 @@ package diam
 //@   ensures [C20] absent: typeis(code, uint32) && !hasmatch(m.AVP, code.(uint32)) ==> err != nil && len(r) == 0
 //@ end
 //@
+//@ # search by path (C20): every path element is resolved through the message's dictionary, in order, and the AVPs
+//@ # returned are exactly those avpsWithPath (verified above against the reference count) reaches for those codes
+//@ func (*Message).FindAVPsWithPath(m, path, vendorID) (r, err)
+//@   property C20
+//@   requires m != nil && m.Header != nil && wfs(m.AVP) && (m.dictionary != nil ==> pwf(m.dictionary))
+//@   assume default_dictionary_initialised: dict.Default != nil && pwf(dict.Default)
+//@   modifies
+//@   atcall avpsWithPath: [C20] searches_the_message_for_the_resolved_codes: sameslice(ARG0, m.AVP) && len(ARG1) == len(path) &&
+//@          (forall j int :: 0 <= j && j < len(path) ==> (typeis(path[j], uint32) ==> ARG1[j] == path[j].(uint32)) && (typeis(path[j], int) ==> ARG1[j] == uint32(path[j].(int))))
+//@   atcall FindAVPWithVendor: [C20] names_resolve_in_the_message_application: ARG0 == (m.dictionary != nil ? m.dictionary : dict.Default) && ARG1 == m.Header.ApplicationID && ARG3 == vendorID
+//@   ensures [C20] numeric_paths_never_fail: (forall j int :: 0 <= j && j < len(path) ==> typeis(path[j], uint32)) ==> err == nil
+//@   loop 0
+//@     modifies fresh, pathCodes[0:len(pathCodes)]
+//@     invariant 0 - 1 <= rangeindex && rangeindex < len(path) && len(pathCodes) == len(path) && fresh(pathCodes)
+//@     invariant [C20] resolved_so_far: forall j int :: 0 <= j && j <= rangeindex ==> (typeis(path[j], uint32) ==> pathCodes[j] == path[j].(uint32)) && (typeis(path[j], int) ==> pathCodes[j] == uint32(path[j].(int)))
+//@   end
+//@ end
+//@
 //@ func avpsWithPath(avps, path) (r)
 //@   property C20 C03
 //@   absidx
@@ -706,10 +724,16 @@ package diam
 //@   modifies
 //@   ensures [C20] whole_forest_for_empty_path: len(path) == 0 ==> sameslice(r, avps)
 //@   ensures [C20] only_the_last_code: len(path) > 0 ==> forall j int :: 0 <= j && j < len(r) ==> r[j] != nil && r[j].Code == path[len(path)-1]
+//@   ensures [C20] as_many_as_the_reference_walk_reaches: len(path) > 0 ==> len(r) == npath(avps, path)
+//@   posthint npath.nonneg(avps, path)
 //@   loop 0
 //@     modifies fresh
 //@     invariant 0 - 1 <= rangeindex && rangeindex < len(avps)
 //@     invariant result_is_private: avsOnPath == nil || fresh(avsOnPath)
+//@     invariant [C20] count: len(avsOnPath) == npath(avps[0:rangeindex+1], path)
+//@     hint npath.step(avps, path, rangeindex + 2)
+//@     hint npath.nonneg(avps[0:rangeindex+1], path)
+//@     hint npath.nonneg(kids(avps[rangeindex+1]), path[1:])
 //@     invariant [C20] only_the_last_code: forall j int :: 0 <= j && j < len(avsOnPath) ==> avsOnPath[j] != nil && avsOnPath[j].Code == path[len(path)-1]
 //@     hint wfs.def(kids(avps[rangeindex+1]))
 //@   end
